@@ -110,7 +110,7 @@ def gen_case_inner(seed, i, thorough):
 # ---------------------------------------------------------------------------------------------
 # one simulated CLI world
 # ---------------------------------------------------------------------------------------------
-def run_bin(args, cwd, strace=None, fsize=None):
+def run_bin(args, cwd, strace=None, fsize=None, timeout=120):
     cmd = [BIN] + args
     if strace:
         cmd = ["strace", "-f", "-qq", "-o", os.path.join(cwd, "strace.out")] + strace + cmd
@@ -122,7 +122,7 @@ def run_bin(args, cwd, strace=None, fsize=None):
             import signal
             signal.signal(signal.SIGXFSZ, signal.SIG_IGN)
             resource.setrlimit(resource.RLIMIT_FSIZE, (fsize, fsize))
-    p = subprocess.run(cmd, cwd=cwd, env=env, stdout=subprocess.PIPE, stderr=subprocess.PIPE, timeout=120, preexec_fn=pre)
+    p = subprocess.run(cmd, cwd=cwd, env=env, stdout=subprocess.PIPE, stderr=subprocess.PIPE, timeout=timeout, preexec_fn=pre)
     return p.returncode, p.stdout.decode("utf-8", "replace"), p.stderr.decode("utf-8", "replace")
 
 
